@@ -56,6 +56,9 @@ fn main() {
     if args.len() >= 5 && args[1] == "crashrun" {
         std::process::exit(props::c08::crashrun_main(&args[2..]));
     }
+    if args.len() >= 4 && args[1] == "syscellrun" {
+        std::process::exit(props::c14::syscellrun_main(&args[2..]));
+    }
     if args.len() >= 5 && args[1] == "freezerun" {
         std::process::exit(props::c10::freezerun_main(&args[2..]));
     }
